@@ -84,7 +84,7 @@ func main() {
 	fset := token.NewFileSet()
 	imp := importer.ForCompiler(fset, "source", nil)
 	stats := map[string]any{}
-	totalRanges, totalEnters, skippedTP := 0, 0, 0
+	totalRanges, totalEnters, skippedTP, totalYields, syncRewrites := 0, 0, 0, 0, 0
 	for _, p := range pkgs {
 		var asts []*ast.File
 		srcs := map[*ast.File][]byte{}
@@ -103,17 +103,77 @@ func main() {
 			srcs[af] = src
 			names[af] = path
 		}
-		info := &types.Info{Types: map[ast.Expr]types.TypeAndValue{}}
+		info := &types.Info{Types: map[ast.Expr]types.TypeAndValue{}, Uses: map[*ast.Ident]types.Object{}}
+		var pkgTypes *types.Package
 		conf := types.Config{Importer: imp, Error: func(err error) {}}
-		if _, err := conf.Check(p.importPath, fset, asts, info); err != nil {
-			fail(fmt.Errorf("type-check %s: %v", p.importPath, err))
+		var cerr error
+		if pkgTypes, cerr = conf.Check(p.importPath, fset, asts, info); cerr != nil {
+			fail(fmt.Errorf("type-check %s: %v", p.importPath, cerr))
+		}
+		// package-level variables of this package (C15: accesses are scheduling points)
+		isPkgVar := func(id *ast.Ident) string {
+			obj, ok := info.Uses[id].(*types.Var)
+			if !ok || obj.IsField() || obj.Pkg() != pkgTypes {
+				return ""
+			}
+			if obj.Parent() == pkgTypes.Scope() {
+				if types.Identical(obj.Type(), types.Universe.Lookup("error").Type()) {
+					return "" // error sentinels are never written after initialisation
+				}
+				return obj.Name()
+			}
+			return ""
+		}
+		// first package-level variable mentioned by a statement, not looking into nested blocks or function literals
+		var touches func(n ast.Node) string
+		touches = func(n ast.Node) string {
+			found := ""
+			ast.Inspect(n, func(c ast.Node) bool {
+				if found != "" || c == nil {
+					return false
+				}
+				switch x := c.(type) {
+				case *ast.BlockStmt:
+					if c != n {
+						return false
+					}
+				case *ast.FuncLit:
+					return false
+				case *ast.Ident:
+					if name := isPkgVar(x); name != "" {
+						found = name
+					}
+				}
+				return true
+			})
+			return found
 		}
 		for _, af := range asts {
 			src := srcs[af]
 			var edits []edit
 			off := func(pos token.Pos) int { return fset.Position(pos).Offset }
 			nkv := 0
+			yieldBefore := func(list []ast.Stmt) {
+				for _, st := range list {
+					switch st.(type) {
+					case *ast.DeclStmt, *ast.EmptyStmt, *ast.LabeledStmt, *ast.BlockStmt, *ast.CaseClause, *ast.CommClause:
+						continue
+					}
+					if name := touches(st); name != "" {
+						edits = append(edits, edit{off(st.Pos()), off(st.Pos()), "verifhook.Yield(\"" + name + "\"); "})
+						totalYields++
+					}
+				}
+			}
 			ast.Inspect(af, func(n ast.Node) bool {
+				switch s := n.(type) {
+				case *ast.BlockStmt:
+					yieldBefore(s.List)
+				case *ast.CaseClause:
+					yieldBefore(s.Body)
+				case *ast.CommClause:
+					yieldBefore(s.Body)
+				}
 				switch s := n.(type) {
 				case *ast.FuncDecl:
 					if s.Body != nil {
@@ -181,6 +241,12 @@ func main() {
 				}
 				return true
 			})
+			for _, imp := range af.Imports {
+				if imp.Path.Value == "\"sync\"" && imp.Name == nil {
+					edits = append(edits, edit{off(imp.Path.Pos()), off(imp.Path.End()), "sync \"" + hookPath + "/vsync\""})
+					syncRewrites++
+				}
+			}
 			if len(edits) == 0 {
 				continue
 			}
@@ -217,6 +283,8 @@ func main() {
 			replace[names[af]] = dst
 		}
 	}
+	stats["yield_points_at_package_variables"] = totalYields
+	stats["sync_imports_rewritten"] = syncRewrites
 	stats["map_ranges_rewritten"] = totalRanges
 	stats["step_points"] = totalEnters
 	stats["ranges_over_type_params_left_alone"] = skippedTP
